@@ -39,9 +39,9 @@ demo = [f for f in os.listdir(wt) if f.startswith("demo_") and f.endswith(".py")
 sh("git diff -- pyoda_time > patch.diff", cwd=wt)
 passed_with, missing_with = suite(wt)
 r_with = sh(f"/venv/bin/python {demo}", cwd=wt, env=ENV)
-sh("git stash", cwd=wt)
+sh("git apply -R patch.diff", cwd=wt)          # (git stash is shared between worktrees: never use it here)
 r_without = sh(f"/venv/bin/python {demo}", cwd=wt, env=ENV)
-sh("git stash pop", cwd=wt)
+sh("git apply patch.diff", cwd=wt)
 ok = missing_with == 0 and r_with.returncode != 0 and r_without.returncode == 0
 print(f"suite with change: {passed_with} passed, {missing_with} baseline tests missing; demo with change rc={r_with.returncode}, without rc={r_without.returncode} -> {'CONFIRMED' if ok else 'REJECTED'}")
 if not ok:
